@@ -250,4 +250,81 @@ inline void pool_mt(const vf::opts &o, vf::report &R, vf::team &T, uint64_t roun
     T.set_aux_targets(false);
 }
 
+// ---------------------------------------------------------------------------------------------
+// Two pools: a job running on a worker of pool A creates, uses and stops/destroys another pool B (fork/join helper). Pool A is
+// alive and not stopped afterwards, so everything submitted to it later must be EXECUTED (not merely cancelled at destruction), on
+// one of A's workers. The driver waits with blocking waits; workers that silently left their loop show up as a hang (watchdog).
+inline cocls::async<int> pn_await_pool(cocls::thread_pool &A, std::atomic<int> &ran, std::atomic<int> &off) {
+    co_await A;
+    if (!is_current(A)) off.fetch_add(1, std::memory_order_relaxed);
+    ran.fetch_add(1, std::memory_order_relaxed);
+    co_return 42;
+}
+inline cocls::async<int> pn_async_body(cocls::thread_pool &A, std::atomic<int> &ran, std::atomic<int> &off) {
+    if (!is_current(A)) off.fetch_add(1, std::memory_order_relaxed);
+    ran.fetch_add(1, std::memory_order_relaxed);
+    co_return 42;
+}
+inline void pool_nested(const vf::opts &o, vf::report &R, uint64_t rounds) {
+    vf::rng master(vf::mix(o.seed, 0x211));
+    for (uint64_t rn = 0; rn < rounds && R.nviol() < 5; rn++) {
+        vf::rng r(master.next());
+        int na = 1 + (int)r.below(3), nnested = 1 + (int)r.below(3), nfollow = 1 + (int)r.below(4);
+        int how[3], nb[3], kind[4];
+        std::string desc = "outer workers=" + std::to_string(na) + " nested:";
+        for (int i = 0; i < nnested; i++) { how[i] = (int)r.below(3); nb[i] = 1 + (int)r.below(2); desc += std::string(" ") + (how[i] == 0 ? "stop()" : how[i] == 1 ? "destructor" : "stop() from the inner worker") + "/" + std::to_string(nb[i]); }
+        desc += " then:";
+        for (int i = 0; i < nfollow; i++) { kind[i] = (int)r.below(3); desc += std::string(" ") + (kind[i] == 0 ? "run(fn)" : kind[i] == 1 ? "run(async)" : "co_await pool"); }
+        vf::set_crash_ctx(R.prop.c_str(), "pool_nested", o.seed, rn, desc.c_str());
+        std::atomic<int> inner_ran{0}, nested_ran{0}, lost_mark{0}, follow_ran[4], off{0};
+        for (auto &f : follow_ran) f = 0;
+        std::string err;
+        {
+            cocls::thread_pool A((unsigned)na);
+            std::vector<std::unique_ptr<cocls::future<int>>> nf;
+            for (int i = 0; i < nnested; i++) {
+                int h = how[i], n = nb[i];
+                nf.push_back(std::unique_ptr<cocls::future<int>>(new cocls::future<int>(A.run([&A, &inner_ran, &nested_ran, &lost_mark, h, n]() -> int {
+                    int v;
+                    {
+                        cocls::thread_pool B((unsigned)n);
+                        cocls::future<int> f = B.run([&inner_ran]() -> int { inner_ran.fetch_add(1, std::memory_order_relaxed); return 7; });
+                        v = f.wait();
+                        if (h == 0) B.stop();
+                        else if (h == 2) { cocls::future<int> g = B.run([&B]() -> int { B.stop(); return 1; }); g.sync(); }
+                    } // ~B
+                    if (!is_current(A)) lost_mark.fetch_add(1, std::memory_order_relaxed); // still a worker of A
+                    nested_ran.fetch_add(1, std::memory_order_relaxed);
+                    return v;
+                }))));
+            }
+            for (auto &f : nf) { f->sync(); outcome oc = read_future(*f, nullptr, 0); if (!(oc.state == PS_VALUE && oc.val == 7) && err.empty()) err = "nested fork/join job returned " + oc.str(); }
+            // the outer pool is alive and was never stopped: everything submitted now must run on its workers
+            std::vector<std::unique_ptr<cocls::future<int>>> ff;
+            for (int i = 0; i < nfollow; i++) {
+                std::atomic<int> &ran = follow_ran[i];
+                if (kind[i] == 0) ff.push_back(std::unique_ptr<cocls::future<int>>(new cocls::future<int>(A.run([&A, &ran, &off]() -> int { if (!is_current(A)) off.fetch_add(1, std::memory_order_relaxed); ran.fetch_add(1, std::memory_order_relaxed); return 42; }))));
+                else if (kind[i] == 1) ff.push_back(std::unique_ptr<cocls::future<int>>(new cocls::future<int>(A.run(pn_async_body(A, ran, off)))));
+                else ff.push_back(std::unique_ptr<cocls::future<int>>(new cocls::future<int>(pn_await_pool(A, ran, off).start())));
+            }
+            for (int i = 0; i < nfollow; i++) {
+                ff[(size_t)i]->sync(); // blocks for ever if the outer pool lost its workers (hang verdict of the watchdog)
+                outcome oc = read_future(*ff[(size_t)i], nullptr, 0);
+                if (!(oc.state == PS_VALUE && oc.val == 42) && err.empty()) err = std::string("job submitted to the live outer pool after a nested pool was stopped: ") + oc.str() + " instead of being executed";
+            }
+        }
+        R.cases++;
+        if (err.empty() && inner_ran.load() != nnested) err = "inner jobs ran " + std::to_string(inner_ran.load()) + " times, expected " + std::to_string(nnested);
+        if (err.empty() && nested_ran.load() != nnested) err = "nested jobs ran " + std::to_string(nested_ran.load()) + " times, expected " + std::to_string(nnested);
+        for (int i = 0; i < nfollow && err.empty(); i++) if (follow_ran[i].load() != 1) err = "follow-up job #" + std::to_string(i) + " executed " + std::to_string(follow_ran[i].load()) + " times";
+        if (err.empty() && lost_mark.load()) err = "a worker of the outer pool is no longer recognised as its worker (is_current) after it stopped another pool";
+        if (err.empty() && off.load()) err = "follow-up job executed on a thread that is not a worker of the outer pool";
+        if (!err.empty()) { R.violation("monitor:exactly_once|pool_nested", err, vf::jobj().kv("scenario", "pool_nested").kv("seed", (unsigned long long)o.seed).kv("round", (unsigned long long)rn).kv("desc", desc).str()); continue; }
+        R.nontrivial_cases++;
+        R.sig(desc);
+        R.cls("nested_pools_stopped", (uint64_t)nnested); R.cls("jobs_executed_after_nested_stop", (uint64_t)nfollow);
+        if (R.samples.size() < 2) R.sample(vf::jobj().kv("round", desc).kv("result", "all follow-up jobs executed once on the outer pool's workers").str());
+    }
+}
+
 } // namespace scn
